@@ -90,7 +90,7 @@ func outputTupleDir(v rel.Value, dir string, fs afero.Fs, dryRun bool) error {
 	if err != nil {
 		return err
 	}
-	if _, err := fs.Stat(dir); os.IsNotExist(err) {
+	if _, err := fs.Stat(dir); os.IsNotExist(err) && !dryRun {
 		if err := fs.Mkdir(dir, 0755); err != nil {
 			return err
 		}
@@ -201,7 +201,14 @@ func applyIfExistsConfig(t rel.Tuple, dir string, fs afero.Fs, dryRun bool) (err
 		return errInvalidConfig
 	}
 	switch conf.String() {
-	case ifExistsIgnore, ifExistsRemove, ifExistsReplace, ifExistsFail:
+	case ifExistsRemove:
+		if err := checkNotDirAndNotFileField(t); err != nil {
+			return err
+		}
+	case ifExistsIgnore, ifExistsReplace, ifExistsFail:
+		if err := checkDirXorFileField(t); err != nil {
+			return err
+		}
 	case ifExistsMerge:
 		if t.HasName(fileField) {
 			return errors.Errorf("%s: '%s' config must not have '%s' field", ifExistsConfig, fileField, ifExistsMerge)
@@ -274,6 +281,9 @@ func checkDirXorFileField(t rel.Tuple) error {
 }
 
 func applyFilesFields(t rel.Tuple, path string, fs afero.Fs, dryRun bool) error {
+	if err := checkDirXorFileField(t); err != nil {
+		return err
+	}
 	if dir, has := t.Get(dirField); has {
 		d, err := getDirField(dir)
 		if err != nil {
